@@ -470,6 +470,20 @@ def run_case(case):
                                      else "readonly-view-of-writeable-base-unlocked",
                                      "msg": f"at quiescence array {name} has writeable={a.flags.writeable}, originally {orig}"})
                     break
+        if not mon.viol:
+            # diagnostic (not a verdict): with every graph gone the lock tables should be empty; what is left behind is keyed by id() and
+            # is a hazard once that id is reused by another array
+            from mygrad._utils import lock_management as _lm
+            left_c = {k: v for k, v in _lm._array_counter.items() if v}
+            left_t = {k: (r() is not None) for k, r in _lm._array_tracker.items()}
+            if left_c or left_t or _lm._views_waiting_for_unlock:
+                mon.cnt["locktable_leftovers"] = 1
+                mon.cnt["locktable_left_counter"] = len(left_c)
+                mon.cnt["locktable_left_tracker_dead"] = sum(1 for a in left_t.values() if not a)
+                mon.cnt["locktable_left_tracker_alive"] = sum(1 for a in left_t.values() if a)
+                mon.cnt["locktable_left_waiting"] = len(_lm._views_waiting_for_unlock)
+                if case.get("debug"):
+                    print("LEFTOVERS", left_c, left_t, dict(_lm._views_waiting_for_unlock))
     finally:
         if tool is not None:
             sys.monitoring.set_events(tool, 0)
